@@ -27,6 +27,7 @@ import json
 import os
 import random
 import re
+import time
 
 import catalogue
 import fitsgen
@@ -121,7 +122,16 @@ def build(S, cfg, inc, d1, d2):
                    name="c06-%s-%s-%s-%s%s" % (S["package"], comp, std, mode, opt))
 
 
+class _Cached:
+    ok = True
+    violated = None
+    raw = ""
+
+
 def tlc_message(S, mi, shapes, sdir, pairs, pairmod, workers):
+    """TLC on one message.  The result depends on the spec, the schema and the
+    scope only (never on /repo), so it is cached content-addressed like the
+    view pipeline's results (VERIF_NOCACHE=1 disables)."""
     stla = viewgen.schema_tla(S)
     body = "SDef == %s\nShapesDef == {%s}\n" % (stla, ",\n ".join(viewpipe.shape_tla(*s) for s in shapes))
     cfg = ("CONSTANT S <- SDef\nCONSTANT MI = %d\nCONSTANT Shapes <- ShapesDef\nCONSTANT Margin = 0\n"
@@ -129,9 +139,24 @@ def tlc_message(S, mi, shapes, sdir, pairs, pairmod, workers):
            % (mi, "TRUE" if pairs else "FALSE", pairmod))
     cfg += "".join("INVARIANT %s\n" % i for i in INVARIANTS)
     cfg += "ACTION_CONSTRAINT EmitFits\n"
+    specs = [os.path.join(vlib.SPEC, f) for f in ("Fits.tla", "View.tla", "SbeImage.tla", "Sbe.tla")]
+    key = vlib.sha(body, cfg, vlib.file_hash(specs))
+    cpath = os.path.join(vlib.CACHE, "c06", "%s-%d-%s.json" % (S["package"], mi, key))
+    if os.path.exists(cpath) and os.environ.get("VERIF_NOCACHE") != "1":
+        j = json.load(open(cpath))
+        r = _Cached()
+        r.records, r.distinct, r.generated, r.wall, r.cached = j["records"], j["distinct"], j["generated"], j["wall"], True
+        return r
     d = os.path.join(sdir, "mc-%d" % mi)
     mc(d, "MC_Fits", "Fits", body, cfg)
-    return tlc("MC_Fits", cwd=d, workers=workers, xmx="3g", timeout=1500)
+    r = tlc("MC_Fits", cwd=d, workers=workers, xmx="3g", timeout=1500)
+    r.cached = False
+    if r.ok:
+        vlib.ensure_dir(os.path.dirname(cpath))
+        tmp = cpath + ".tmp%d" % os.getpid()
+        vlib.write(tmp, json.dumps({"records": r.records, "distinct": r.distinct, "generated": r.generated, "wall": r.wall}))
+        os.replace(tmp, cpath)
+    return r
 
 
 def sample_of(x):
@@ -176,7 +201,10 @@ def run(v, tier, seed):
     vectors = {S["package"]: [] for S in schemas}
     bins = {S["package"]: [] for S in schemas}
     states = trans = 0
-    for job, r in vlib.parallel(jobs, do, nproc=6):
+    t0 = time.time()
+    results = vlib.parallel(jobs, do, nproc=6)
+    vlib.log("C06: TLC + builds %.0fs" % (time.time() - t0))
+    for job, r in results:
         S = job[1]
         name = S["package"]
         if job[0] == "cxx":
@@ -189,7 +217,7 @@ def run(v, tier, seed):
             continue
         mname = S["messages"][job[2] - 1]["name"]
         v.part("tlc_%s_%s" % (name, mname), shapes=len(job[3]), distinct=r.distinct, generated=r.generated,
-               vectors=len(r.records), wall_s=round(r.wall, 1))
+               vectors=len(r.records), wall_s=round(r.wall, 1), from_cache=r.cached)
         if not r.ok:
             v.violation("spec/%s/%s/%s" % (name, mname, r.violated),
                         "Fits.tla violates %s in the model itself (the reference walk disagrees with its own "
@@ -215,7 +243,10 @@ def run(v, tier, seed):
     evals = replayed = 0
     distinct = {}
     hook = None
-    for (name, cfg, b, vp), (mism, stat, p) in vlib.parallel(runs, replay_run, nproc=8):
+    t0 = time.time()
+    replays = vlib.parallel(runs, replay_run, nproc=8)
+    vlib.log("C06: replay %.0fs" % (time.time() - t0))
+    for (name, cfg, b, vp), (mism, stat, p) in replays:
         tag = "%s_%s_%s_%s%s" % ((name,) + cfg)
         v.part("replay_" + tag, **{k: stat[k] for k in ("evaluations", "calls", "distinct", "hook", "mode", "timeouts",
                                                        "skipped_after_repeated_timeout", "max_call_ns", "mean_call_ns",
